@@ -492,6 +492,57 @@ func genSymmetric(rng *vkit.Rng) quad {
 	return q
 }
 
+// coordinate-permutation symmetric pairs: a1 is the mirror image of a0 in a plane x_i = s*x_j
+// (two coordinates exchanged, optionally both negated) and b0 lies exactly in that plane, so the
+// COMPUTED squared distances |b0-a0|^2 and |b0-a1|^2 are bit-equal (always for the X<->Y swap,
+// whose squares are added in a commutative position; often for the others) and projection's
+// Cmp tie-break decides which endpoint is subtracted.  tie reports whether the tie is exact.
+func genPermSymmetric(rng *vkit.Rng) (q quad, tie bool) {
+	v := randUnit(rng)
+	i, j := [][2]int{{0, 1}, {0, 1}, {0, 2}, {1, 2}}[rng.Intn(4)][0], 0
+	switch i {
+	case 0:
+		j = 1 + rng.Intn(2)
+	default:
+		j = 2
+	}
+	if rng.Intn(2) == 0 {
+		i, j = 0, 1
+	}
+	sg := 1.0
+	if rng.Intn(3) == 0 {
+		sg = -1
+	}
+	get := func(u r3.Vector) [3]float64 { return [3]float64{u.X, u.Y, u.Z} }
+	mk := func(c [3]float64) r3.Vector { return r3.Vector{X: c[0], Y: c[1], Z: c[2]} }
+	c0 := get(v)
+	c1 := c0
+	c1[i], c1[j] = sg*c0[j], sg*c0[i]
+	a0, a1 := s2.Point{Vector: v}, s2.Point{Vector: mk(c1)}
+	if a0 == a1 {
+		return q, false
+	}
+	m := a0.Add(a1.Vector).Normalize()
+	var nc [3]float64
+	nc[i], nc[j] = 1, -sg
+	n := mk(nc).Normalize()
+	d := m.Cross(n).Normalize()
+	h, k := math.Pow(10, -rng.Range(1, 5)), math.Pow(10, -rng.Range(1, 5))
+	if rng.Intn(4) == 0 {
+		h = math.Pow(10, -rng.Range(5, 12))
+	}
+	w := get(m.Add(d.Mul(h)))
+	w[j] = sg * w[i] // exactly in the mirror plane; Normalize keeps it there (same factor)
+	b0 := s2.Point{Vector: mk(w).Normalize()}
+	b1 := s2.Point{Vector: m.Sub(d.Mul(k)).Add(n.Mul(k * (rng.Float() - 0.5))).Normalize()}
+	q = quad{a0, a1, b0, b1}
+	if rng.Bool() {
+		q = quad{a0, a1, b1, b0}
+	}
+	tie = b0.Sub(a0.Vector).Norm2() == b0.Sub(a1.Vector).Norm2()
+	return q, tie
+}
+
 // move one endpoint of b next to the crossing point (k ulps)
 func nearEndpoint(rng *vkit.Rng, q quad) quad {
 	x := s2.Intersection(q[0], q[1], q[2], q[3])
@@ -575,6 +626,25 @@ func run(c *vkit.Collector, rng *vkit.Rng, budget int) {
 	}
 	for k := 0; k < 30*budget; k++ {
 		emit("symmetric", genSymmetric(rng))
+	}
+	// exact ties in projection: [S] on many pairs (cheap), [T] on a few
+	for k := 0; k < 600*budget; k++ {
+		q, tie := genPermSymmetric(rng)
+		class := "perm-symmetric:no-exact-tie"
+		if tie {
+			class = "perm-symmetric:exact-tie"
+		}
+		if k < 12*budget {
+			emit(class, q)
+			continue
+		}
+		if s2.CrossingSign(q[0], q[1], q[2], q[3]) != s2.Cross {
+			c.Class("rejected(not Cross):perm-symmetric")
+			continue
+		}
+		c.Class(class + "([S] only)")
+		c.Eval(q.key(), true)
+		checkQuad(c, class, q)
 	}
 	// compareEdges on arbitrary (also non-crossing, vertex-sharing) quadruples: total order facts
 	pool := []s2.Point{P(1, 0, 0), P(0, 1, 0), P(0, 0, 1), P(-1, 0, 0), P(1, 0, math.Copysign(0, -1)), P(0.6, 0.8, 0), P(0.6, 0, 0.8), P(0.6, 0.8, 1e-300)}
